@@ -371,3 +371,148 @@ impl<'a> serde::ser::SerializeStructVariant for &'a mut Rec {
         Ok(())
     }
 }
+
+// ---- adversarial deserializer (C04): hands the payload to ONE chosen visitor method -------------
+//
+// The three real formats only ever call `visit_newtype_struct`; a shortcut added to the generated visitor
+// (`visit_u64`, `visit_seq`, …) would be invisible to them. This deserializer answers every
+// `deserialize_*` request by calling the chosen visitor method with the payload.
+
+#[derive(Clone, Debug, PartialEq)]
+pub enum ProbeCall {
+    Newtype(Box<ProbeCall>),
+    Seq1(Box<ProbeCall>),
+    Seq2(Box<ProbeCall>),
+    Map1(Box<ProbeCall>),
+    Some_(Box<ProbeCall>),
+    U8(u8),
+    U16(u16),
+    U32(u32),
+    U64(u64),
+    U128(u128),
+    I8(i8),
+    I16(i16),
+    I32(i32),
+    I64(i64),
+    I128(i128),
+    F32(f32),
+    F64(f64),
+    Str(String),
+    StringOwned(String),
+    Bytes(Vec<u8>),
+    VecI64(Vec<i64>),
+    Point(i32, i32),
+    Unit,
+    None_,
+    Bool(bool),
+    Char(char),
+}
+
+pub struct ProbeDe(pub ProbeCall);
+
+#[derive(Debug)]
+pub struct ProbeErr(pub String);
+impl std::fmt::Display for ProbeErr {
+    fn fmt(&self, f: &mut std::fmt::Formatter) -> std::fmt::Result {
+        write!(f, "{}", self.0)
+    }
+}
+impl std::error::Error for ProbeErr {}
+impl serde::de::Error for ProbeErr {
+    fn custom<T: std::fmt::Display>(m: T) -> Self {
+        ProbeErr(m.to_string())
+    }
+}
+
+struct ProbeSeq(Vec<ProbeCall>);
+impl<'de> serde::de::SeqAccess<'de> for ProbeSeq {
+    type Error = ProbeErr;
+    fn next_element_seed<T: serde::de::DeserializeSeed<'de>>(&mut self, seed: T) -> Result<Option<T::Value>, ProbeErr> {
+        if self.0.is_empty() {
+            return Ok(None);
+        }
+        let c = self.0.remove(0);
+        seed.deserialize(ProbeDe(c)).map(Some)
+    }
+}
+struct ProbeMap(Vec<(String, ProbeCall)>, Option<ProbeCall>);
+impl<'de> serde::de::MapAccess<'de> for ProbeMap {
+    type Error = ProbeErr;
+    fn next_key_seed<K: serde::de::DeserializeSeed<'de>>(&mut self, seed: K) -> Result<Option<K::Value>, ProbeErr> {
+        if self.0.is_empty() {
+            return Ok(None);
+        }
+        let (k, v) = self.0.remove(0);
+        self.1 = Some(v);
+        seed.deserialize(ProbeDe(ProbeCall::Str(k))).map(Some)
+    }
+    fn next_value_seed<V: serde::de::DeserializeSeed<'de>>(&mut self, seed: V) -> Result<V::Value, ProbeErr> {
+        seed.deserialize(ProbeDe(self.1.take().unwrap()))
+    }
+}
+
+impl<'de> serde::Deserializer<'de> for ProbeDe {
+    type Error = ProbeErr;
+    fn deserialize_any<V: serde::de::Visitor<'de>>(self, v: V) -> Result<V::Value, ProbeErr> {
+        match self.0 {
+            ProbeCall::Newtype(inner) => v.visit_newtype_struct(ProbeDe(*inner)),
+            ProbeCall::Seq1(inner) => v.visit_seq(ProbeSeq(vec![*inner])),
+            ProbeCall::Seq2(inner) => v.visit_seq(ProbeSeq(vec![(*inner).clone(), *inner])),
+            ProbeCall::Map1(inner) => v.visit_map(ProbeMap(vec![("0".into(), *inner)], None)),
+            ProbeCall::Some_(inner) => v.visit_some(ProbeDe(*inner)),
+            ProbeCall::U8(x) => v.visit_u8(x),
+            ProbeCall::U16(x) => v.visit_u16(x),
+            ProbeCall::U32(x) => v.visit_u32(x),
+            ProbeCall::U64(x) => v.visit_u64(x),
+            ProbeCall::U128(x) => v.visit_u128(x),
+            ProbeCall::I8(x) => v.visit_i8(x),
+            ProbeCall::I16(x) => v.visit_i16(x),
+            ProbeCall::I32(x) => v.visit_i32(x),
+            ProbeCall::I64(x) => v.visit_i64(x),
+            ProbeCall::I128(x) => v.visit_i128(x),
+            ProbeCall::F32(x) => v.visit_f32(x),
+            ProbeCall::F64(x) => v.visit_f64(x),
+            ProbeCall::Str(s) => v.visit_str(&s),
+            ProbeCall::StringOwned(s) => v.visit_string(s),
+            ProbeCall::Bytes(b) => v.visit_bytes(&b),
+            ProbeCall::VecI64(xs) => v.visit_seq(ProbeSeq(xs.into_iter().map(ProbeCall::I64).collect())),
+            ProbeCall::Point(x, y) => v.visit_map(ProbeMap(vec![("x".into(), ProbeCall::I32(x)), ("y".into(), ProbeCall::I32(y))], None)),
+            ProbeCall::Unit => v.visit_unit(),
+            ProbeCall::None_ => v.visit_none(),
+            ProbeCall::Bool(b) => v.visit_bool(b),
+            ProbeCall::Char(c) => v.visit_char(c),
+        }
+    }
+    serde::forward_to_deserialize_any! {
+        bool i8 i16 i32 i64 i128 u8 u16 u32 u64 u128 f32 f64 char str string bytes byte_buf option unit unit_struct newtype_struct seq tuple tuple_struct map struct enum identifier ignored_any
+    }
+}
+
+/// the payload as the inner type's own deserializer would receive it
+pub fn probe_payload(v: &Val, int_ty: Option<IntTy>) -> ProbeCall {
+    match (v, int_ty) {
+        (Val::U(x), Some(IntTy::U8)) => ProbeCall::U8(*x as u8),
+        (Val::U(x), Some(IntTy::U16)) => ProbeCall::U16(*x as u16),
+        (Val::U(x), Some(IntTy::U32)) => ProbeCall::U32(*x as u32),
+        (Val::U(x), Some(IntTy::U64)) | (Val::U(x), Some(IntTy::Usize)) => ProbeCall::U64(*x as u64),
+        (Val::U(x), _) => ProbeCall::U128(*x),
+        (Val::I(x), Some(IntTy::I8)) => ProbeCall::I8(*x as i8),
+        (Val::I(x), Some(IntTy::I16)) => ProbeCall::I16(*x as i16),
+        (Val::I(x), Some(IntTy::I32)) => ProbeCall::I32(*x as i32),
+        (Val::I(x), Some(IntTy::I64)) | (Val::I(x), Some(IntTy::Isize)) => ProbeCall::I64(*x as i64),
+        (Val::I(x), _) => ProbeCall::I128(*x),
+        (Val::F32(b), _) => ProbeCall::F32(f32::from_bits(*b)),
+        (Val::F64(b), _) => ProbeCall::F64(f64::from_bits(*b)),
+        (Val::S(s), _) => ProbeCall::Str(s.clone()),
+        (Val::V(xs), _) => ProbeCall::VecI64(xs.clone()),
+        (Val::P(x, y), _) => ProbeCall::Point(*x, *y),
+    }
+}
+
+pub fn de_probe<T: DeserializeOwned>(call: &ProbeCall, to: impl Fn(T) -> Val) -> DeOut {
+    match guard_any(|| T::deserialize(ProbeDe(call.clone()))) {
+        Ok(Ok(t)) => DeOut::Ok(vec![to(t)]),
+        Ok(Err(e)) => DeOut::Err(e.0),
+        Err(p) => DeOut::Panic(p),
+    }
+}
